@@ -383,3 +383,92 @@ func srcUnits() []*Unit {
 	big.Data = d{"l": l}
 	return us
 }
+
+// ---- long values: writes of several thousand bytes --------------------------
+
+// longText builds exactly n bytes of text: ASCII letters and digits, or
+// 3- and 2-byte characters (padded with ASCII to the exact size); with
+// special an '&' about every 1022 bytes (not aligned with any power of two).
+func longText(n int, multi, special bool) string {
+	var b strings.Builder
+	b.Grow(n)
+	const ascii = "abcdefghijklmnopqrstuvwxyz0123456789"
+	i := 0
+	for b.Len() < n {
+		i++
+		left := n - b.Len()
+		switch {
+		case special && b.Len()%1022 == 1021:
+			b.WriteByte('&')
+		case multi && i%2 == 0 && left >= 3:
+			b.WriteString("日")
+		case multi && left >= 2:
+			b.WriteString("é")
+		default:
+			b.WriteByte(ascii[i%len(ascii)])
+		}
+	}
+	return b.String()
+}
+
+// longUnits: values, raw texts, css names and message texts of 4095 ... 70000
+// bytes through every string-writing site, as the last command and followed
+// by more output. (Writers with and without WriteString, and the byte
+// capacities around chunk boundaries, are chosen in Unit.plans / longCaps.)
+func longUnits() []*Unit {
+	var us []*Unit
+	sizes := []int{4095, 4096, 4097, 8192, 10000, 70000}
+	type kind struct {
+		name, attrs string
+		body        func(t string) string // t: the long text (for literal kinds)
+		value       bool                  // the long text is the value of $x
+		special     bool
+		asciiOnly   bool
+		msgs        string
+	}
+	kinds := []kind{
+		{name: "eprint", body: func(string) string { return "{$x}" }, value: true, special: true},
+		{name: "eprint-plain", body: func(string) string { return "{$x}" }, value: true},
+		{name: "uprint-dir", body: func(string) string { return "{$x|noAutoescape}" }, value: true, special: true},
+		{name: "uprint-off", attrs: ` autoescape="false"`, body: func(string) string { return "{$x}" }, value: true, special: true},
+		{name: "rawtext", body: func(t string) string { return t }, special: true},
+		{name: "css-expr", body: func(string) string { return "{css $x, suf}" }, value: true},
+		{name: "css-name", body: func(t string) string { return "{css " + t + "}" }, asciiOnly: true},
+		{name: "msg-bundle", body: func(t string) string { return `{msg desc="d"}` + t + `{/msg}` }, msgs: "bracket"},
+		{name: "msg-source", body: func(t string) string { return `{msg desc="d"}` + t + `<b>{$y}</b>{/msg}` }},
+	}
+	for _, n := range sizes {
+		for ci, multi := range []bool{false, true} {
+			for _, k := range kinds {
+				if multi && k.asciiOnly {
+					continue
+				}
+				t := longText(n, multi, k.special)
+				for pi, pos := range []string{"last", "followed"} {
+					body := k.body(t)
+					params := ""
+					data := d{}
+					if k.value {
+						params, data["x"] = "x", t
+					}
+					if strings.Contains(body, "$y") || pos == "followed" {
+						params += " y"
+						data["y"] = "<y>"
+					}
+					if pos == "last" {
+						body = "pre:" + body
+					} else {
+						body = body + "<br>{$y}|{$y|noAutoescape}"
+					}
+					u := srcUnit(fmt.Sprintf("%s.%d.c%d.p%d", k.name, n, ci, pi), params, k.attrs, body, data)
+					u.Family = "long"
+					u.ID = "long/" + strings.TrimPrefix(u.ID, "src/")
+					u.Msgs = k.msgs
+					u.long = true
+					us = append(us, u)
+				}
+			}
+		}
+	}
+	return us
+}
